@@ -20,7 +20,7 @@ enum {
     WO_DOUBLE, WO_STR_0, WO_STR_1, WO_STR_127, WO_STR_128, WO_STR_300, WO_STRZ_AB, WO_NAME_A,
     WO_BYT_0, WO_BYT_1, WO_BYT_128, WO_RAW_0, WO_RAW_2, WO_P2W,
     /* operations that have no encoding: only "error set, nothing stored" is demanded */
-    WO_STR_HUGE, WO_BYT_HUGE, WO_STRZ_NULL, WO_RAW_NULL,
+    WO_STR_HUGE, WO_BYT_HUGE, WO_STRZ_NULL, WO_RAW_NULL, WO_RAW_HUGE, WO_RAW_WRAP,
     WO_NOPS
 };
 #define WO_FIRST_NOENC WO_STR_HUGE
@@ -28,7 +28,7 @@ static const char *const wo_name[WO_NOPS] = {
     "object_begin", "object_end", "array_begin", "array_end", "true", "false", "int(1)", "int(-128)", "int(128)", "int(-32769)", "int(2^31)",
     "int(INT64_MIN)", "double(-1.5)", "string_with_len(0)", "string_with_len(1)", "string_with_len(127)", "string_with_len(128)",
     "string_with_len(300)", "write_string(\"ab\")", "write_name(\"a\")", "bytes(0)", "bytes(1)", "bytes(128)", "write_raw(0)", "write_raw(2)",
-    "parser_to_writer([1])", "string_with_len(INT32_MAX+1)", "bytes(SIZE_MAX)", "write_string(NULL)", "write_raw(NULL)"
+    "parser_to_writer([1])", "string_with_len(INT32_MAX+1)", "bytes(SIZE_MAX)", "write_string(NULL)", "write_raw(NULL)", "write_raw(len=SIZE_MAX)", "write_raw(len=SIZE_MAX-1: counter+len wraps)"
 };
 
 static uint8_t wexp_payload[400];       /* patterned source bytes */
@@ -117,6 +117,8 @@ static bool wexp_real_op(int op, binson_writer *w)
     case WO_BYT_HUGE: return binson_write_bytes(w, wexp_payload, SIZE_MAX);
     case WO_STRZ_NULL: return binson_write_string(w, NULL);
     case WO_RAW_NULL: return binson_write_raw(w, NULL, 4);
+    case WO_RAW_HUGE: return binson_write_raw(w, wexp_payload, SIZE_MAX);
+    case WO_RAW_WRAP: return binson_write_raw(w, wexp_payload, SIZE_MAX - 1);
     default: vf_die("wexp: bad op");
     }
 }
